@@ -329,6 +329,13 @@ def build(s: dict):
         return cb.Wedge(build_face(s["base"]), F(s["th"]))
     if t == "box":
         return cb.Box(FV(s["p1"]), FV(s["p2"]))
+    if t == "assembly":
+        from classy_blocks.construct.assemblies.assembly import Assembly
+
+        class PlainAssembly(Assembly):  # the base class as it is: parts and center are inherited
+            pass
+
+        return PlainAssembly([build(x) for x in s["shapes"]])
     if t in ("sketch", "shape", "asm"):
         classes = {
             "Grid": cb.Grid,
@@ -615,6 +622,19 @@ def geometry(e, assemble: bool = True) -> dict:
             mesh_counts = {"error": type(ex).__name__}
     g: Dict[str, Any] = {"units": units, "mesh": mesh_counts}
     geo = getattr(e, "geometry", None)
+    spheres = []
+    import re as _re
+
+    for owner in [e, *list(getattr(e, "shapes", []) or [])]:
+        og = getattr(owner, "geometry", None)
+        for props in (og or {}).values():
+            text = " ".join(props)
+            c = _re.search(r"centre \(([^)]*)\)", text)
+            r = _re.search(r"radius ([-+0-9.eE]+)", text)
+            if "searchableSphere" in text and c and r:
+                spheres.append({"centre": [float(x) for x in c.group(1).split()], "radius": float(r.group(1))})
+    if spheres:
+        g["spheres"] = spheres
     if geo:
         labels = set()
         for u in units:
@@ -1037,7 +1057,11 @@ def gen_steps(rng: random.Random, n: int, allow_default_origin: bool = True) -> 
         elif k == "S":
             steps.append({"k": "S", "r": rng.choice(["1/2", "2/3", "3/2", "2", "5/4", "3"]), "o": o})
         else:
-            steps.append({"k": "M", "n": S(rnz_int_vec(rng)), "o": o})
+            n = [Fr(c) for c in rnz_int_vec(rng)]
+            if rng.random() < 0.12:
+                # short but perfectly valid: e.g. the cross product of two sub-millimetre edge vectors (6e-8 long)
+                n = mul(Fr(rng.choice([1, 2, 5]), 10**8), n)
+            steps.append({"k": "M", "n": S(n), "o": o})
     return steps
 
 
@@ -1248,6 +1272,19 @@ def gen_entity(rng: random.Random, family: str) -> dict:
         end = [{"k": "T", "d": ["0", "0", "1"]}, {"k": "R", "w": "5", "a": ["0", "0", "1"], "o": ["0", "0", "0"]}]
         mid = [{"k": "T", "d": ["0", "0", "1/2"]}, {"k": "R", "w": "10", "a": ["0", "0", "1"], "o": ["0", "0", "0"]}]
         return {"t": "stack", "cls": cls, "base": base, "end": end, "mid": mid if rng.random() < 0.6 else None, "repeats": rng.randint(1, 2)}
+    if family == "assembly":
+        # a cylinder with a hemispherical cap (and sometimes a second cap): shapes with parts besides their operations
+        a1, a2, r1 = fr.P(0, 0, 0), fr.P(0, 0, rq(rng, 1, 3)), fr.P(rq(rng, 1, 2), 0, 0)
+        rad = sub(r1, a1)
+        shapes = [
+            {"t": "shape", "cls": "Cylinder", "args": [S(a1), S(a2), S(r1)]},
+            {"t": "shape", "cls": "Hemisphere", "args": [S(a2), S(add(a2, rad)), S(sub(a2, a1))]},
+        ]
+        if rng.random() < 0.4:
+            shapes.append({"t": "shape", "cls": "Hemisphere", "args": [S(a1), S(r1), S(sub(a1, a2))]})
+        if rng.random() < 0.3:
+            shapes.reverse()
+        return {"t": "assembly", "shapes": shapes}
     if family == "asm":
         cls = rng.choice(["TJoint", "LJoint", "NJoint"])
         args: List[Any] = [S(fr.P(0, 0, 0)), S(fr.P(2, 0, 0)), S(fr.P(0, 0, Fr(1, 2)))]
@@ -1258,8 +1295,8 @@ def gen_entity(rng: random.Random, family: str) -> dict:
 
 
 FAMILIES_QUICK = [
-    ("point", 14), ("array", 14), ("edge", 36), ("curve", 24), ("face", 36), ("loft", 30), ("extrude", 10), ("revolve", 12),
-    ("wedge", 6), ("box", 6), ("sketch", 22), ("shape", 22), ("stack", 6), ("asm", 3),
+    ("point", 14), ("array", 14), ("edge", 36), ("curve", 24), ("face", 32), ("loft", 24), ("extrude", 10), ("revolve", 12),
+    ("wedge", 6), ("box", 6), ("sketch", 22), ("shape", 22), ("stack", 6), ("asm", 3), ("assembly", 3),
 ]  # fmt: skip
 
 
@@ -1271,6 +1308,8 @@ def _top_class(spec: dict) -> str:
         return "Edge." + spec["e"]["k"]
     if spec["t"] == "curve":
         return "Curve." + spec["c"]
+    if spec["t"] == "assembly":
+        return "Assembly(" + "+".join(x["cls"] for x in spec["shapes"]) + ")"
     if spec["t"] == "sharedspline":
         return "TwoLoftsOneSplineArray"
     return spec["t"].capitalize()
@@ -1755,11 +1794,12 @@ class C09(core.Check):
         if m0 and m1:
             if ("error" in m0) != ("error" in m1) or (("error" not in m0) and (m0["vertices"], m0["edges"]) != (m1["vertices"], m1["edges"])):
                 out.append({"site": f"{where}:assembled-counts", "what": f"assembled mesh of the original {_counts(m0)}, of the transformed entity {_counts(m1)}"})
-        if "sphere" in g0 and "sphere" in g1:
-            ec = list(aff.fpt(g0["sphere"]["centre"]))
-            er = float(aff.ratio) * g0["sphere"]["radius"]
-            if not _near(ec, g1["sphere"]["centre"], 1e-6 * (1 + max(abs(c) for c in ec))) or abs(er - g1["sphere"]["radius"]) > 1e-6 * (1 + er):
-                out.append({"site": f"{cls}:{kinds}:searchable-sphere", "what": "the searchableSphere written for the shape is not the image of the original one", "observed": g1["sphere"], "expected": {"centre": ec, "radius": er}})
+        for s0, s1 in zip(g0.get("spheres", []), g1.get("spheres", [])):
+            ec = list(aff.fpt(s0["centre"]))
+            er = float(aff.ratio) * s0["radius"]
+            if not _near(ec, s1["centre"], 1e-6 * (1 + max(abs(c) for c in ec))) or abs(er - s1["radius"]) > 1e-6 * (1 + er):
+                out.append({"site": f"{cls}:{kinds}:searchable-sphere", "what": "the searchableSphere declared for a sphere shape (centre, radius: what its outer faces are projected to) is not the image of the original one", "observed": s1, "expected": {"centre": ec, "radius": er}})
+                break
         if "geometry_keys" in g1:
             missing = [l for l in g1["labels_used"] if l.startswith("sphere_") and l not in g1["geometry_keys"]]
             if missing:
